@@ -52,14 +52,17 @@ Print Assumptions C07_adds_are_flattened_leaves.
 Theorem C07_scalars : forall o x y path,
   diff_node o (Leaf x) (Leaf y) path = if scalar_eqb x y then [] else [mkMod MChange path y x].
 Proof. reflexivity. Qed.
+Print Assumptions C07_scalars.
 Theorem C07_lists : forall o xs ys path,
   diff_node o (Lst xs) (Lst ys) path =
   if equals (Lst xs) (Lst ys) then [] else mkMod MDelete path SNull SNull :: adds o (Lst xs) path.
 Proof. exact diff_node_lst. Qed.
+Print Assumptions C07_lists.
 Theorem C07_kind_mismatch : forall o l r path,
   match l, r with Con _, Con _ | Lst _, Lst _ | Leaf _, Leaf _ => False | _, _ => True end ->
   diff_node o l r path = mkMod MDelete path SNull SNull :: adds o r path.
 Proof. exact diff_node_mismatch. Qed.
+Print Assumptions C07_kind_mismatch.
 Theorem C07_containers : forall o kl kr path,
   diff_node o (Con kl) (Con kr) path =
   blocks o 1 path (dn_left_blocks o kr path kl) ++ blocks o 2 path (dn_right kl path kr).
